@@ -224,6 +224,36 @@ func shapedScenario(g *Gen, which int) Case {
 			um["users"] = []interface{}{user("d0", 1, g.Pick("build/usr", "build", "overlayfs/upperdir"))}
 		}
 		steps = []interface{}{cmd("mount", "d0"), cmd("probe"), um, cmd("probe"), umountAll(), cmd("probe")}
+	case 15, 16, 17:
+		// a mount made by hand below an import mountpoint and one ON that mountpoint (the shape
+		// of the binman suite's history): 15 = below first, then on: the second covers the first
+		// and what hangs below it, `umount` asks for the covered mountpoint first and is refused
+		// on every retry (finding umount-order-hidden-submount) until the covering mount is taken
+		// away by hand; 16 = the control order, nothing is hidden, `umount` succeeds; 17 = the
+		// hidden shape inside a derived layer, unmounted with -all
+		imps := []string{"import proc /proc /proc", "import rbind " + VB + "/hostsrc /mnt/host"}
+		for _, l := range []glayer{{name: "b0", imports: imps}, {name: "d0", base: "b0", imports: imps}} {
+			genLayerTree(g, t, l, pf, false)
+		}
+		ln := "b0"
+		if which == 17 {
+			ln = "d0"
+		}
+		host := VB + "/layers/" + ln + "/build/mnt/host"
+		bind := func(src, tgt string) map[string]interface{} {
+			return obj("cmd", "sysmount", "args", hxs([]string{src, tgt, "bind"}), "flags", float64(4096))
+		}
+		onSub, onHost := bind(VB+"/hostsrc/sub", host+"/sub"), bind(VB+"/hostsrc", host)
+		switch which {
+		case 15:
+			steps = []interface{}{cmd("mount", ln), onSub, onHost, cmd("probe"), cmd("umount", ln), cmd("probe"),
+				cmd("umount", ln), obj("cmd", "sysumount", "args", hxs([]string{host})), cmd("umount", ln), cmd("probe")}
+		case 16:
+			steps = []interface{}{cmd("mount", ln), onHost, onSub, cmd("probe"), cmd("umount", ln), cmd("probe")}
+		default:
+			steps = []interface{}{cmd("mount", ln), onSub, onHost, cmd("probe"), umountAll(), cmd("probe"),
+				obj("cmd", "sysumount", "args", hxs([]string{host})), umountAll(), cmd("probe")}
+		}
 	default:
 		// export directory names that differ from the layer's own directory names, explicit
 		// export directives, then rename and remove
@@ -242,7 +272,7 @@ func shapedScenario(g *Gen, which int) Case {
 
 func init() {
 	register("scn-directed", func(g *Gen, tier string, emit func(Case)) {
-		for w := 0; w < 15; w++ {
+		for w := 0; w < 18; w++ {
 			emit(shapedScenario(g, w))
 		}
 		for _, imp := range directedImports {
